@@ -1,11 +1,12 @@
-(* C05, additional models (definitions only; nothing here is used by the correspondence checkers):
+(* C05, additional models (definitions only; evaluated against the code by Model/FactorCase2.v: check_lq_case on
+   the lq cases, check_eig_case in the 'plan' stream of harness/c05.py with stubbed per-block LAPACK results):
    - lq: np_conserved.lq(a) = transposed results of qr(a.transpose()), so its charge plan is the plan of
      Model/Factor.v (qr_charges, correspondence-checked for qr AND lq cases by harness/c05.py) on the
      transposed matrix;
    - eigh / eig (_eig_worker): the plan around the per-block LAPACK call: resv = diag(1, legs[0]),
      resw = zeros, then for every stored block  resv._data[qi] = rv  and  resw[slice(qi)] = rw.
-   The eig model is tied to the code only by reading (it is a line-by-line transcription of _eig_worker
-   after as_completely_blocked) and through the dense oracle of harness/c05.py. *)
+   The eig model is a line-by-line transcription of _eig_worker after as_completely_blocked; check_eig_case compares
+   its result with resv._qdata / _data and resw of npc.eigh / eig on completely blocked matrices. *)
 From TenpyV Require Import Base.Prelude Model.ChargeL Model.Leg Model.Factor.
 Open Scope Z_scope.
 
